@@ -36,6 +36,14 @@ CORPUS = [
     '10 FOR i = 1 TO 2 : FOR j = 1 TO 2 : PUNCH i*10+j : NEXT : NEXT\n20 FOR i = 1 TO 2 : FOR j = 1 TO 2 : PUNCH i*10+j : NEXT i\n30 PUNCH i, j\n40 SAVE i',
     '10 GOSUB 100 : PUNCH 2\n20 SAVE 3 : END\n100 PUNCH 1 : GOSUB 200 : RETURN\n200 PUNCH 1.5 : RETURN',
     '10 STOP',
+    '10 DIM a(5) : k = 0\n20 FOR a(3) = 1 TO 3\n30 k = k + 1 : IF k = 1 THEN ERASE a\n40 PUNCH k, a\n50 NEXT\n60 PUNCH a : SAVE a',   # ERASE in a loop on an element: scalar cell
+    '10 b(2) = 9 : FOR b(1) = 1 TO 2 : x = b(2) : NEXT : PUNCH b(1), b(2)\n20 FOR b(4) = 3 TO 1 STEP -1 : FOR j = 1 TO 2 : b(5) = b(5) + b(4) : NEXT j : NEXT b(1)\n30 PUNCH b(4), b(5) : SAVE b(5)',
+    # element-to-element traffic inside one array: LET / READ / FOR keep their target although findvar re-points the
+    # per-variable cell pointer at every reference (seeded C17b: string LET lost its save/restore)
+    '10 DIM s$(5) : s$(1) = "a" : s$(2) = "b" : s$(3) = "c"\n20 s$(3) = s$(1) + s$(2) : s$(1) = s$(3) + s$(1) + s$(2)\n30 t$(4) = "x" : t$(5) = "y" : t$(6) = t$(4) + t$(5) : t$(4) = t$(4) + t$(6)\n40 PUNCH s$(1), s$(2), s$(3), t$(4), t$(5), t$(6)\n50 SAVE LEN(s$(1))',
+    '10 DIM a(5), g(2, 2), w$(2, 2) : a(1) = 1 : a(2) = 2 : a(3) = 3\n20 a(3) = a(1) * 0.5 + a(2) : a(1) = a(3) - a(1) * a(2)\n30 g(1, 1) = 5 : g(2, 2) = 7 : g(1, 2) = g(1, 1) + g(2, 2) : w$(1, 1) = "p" : w$(2, 2) = "q" : w$(1, 2) = w$(1, 1) + w$(2, 2)\n40 PUNCH a(1), a(2), a(3), g(1, 2), g(2, 2), g(1, 1), w$(1, 2), w$(2, 2), w$(1, 1)\n50 SAVE a(1)',
+    '10 DIM s$(5), a(5) : s$(1) = "a" : s$(2) = "b" : s$(3) = "c" : a(1) = 1 : a(2) = 2 : a(3) = 3\n20 READ s$(3), s$(1), a(3), a(1)\n30 DATA s$(1) + s$(2), s$(1) + "z" + s$(3), a(1) + a(2), a(1) * 10 + a(3)\n40 PUNCH s$(1), s$(2), s$(3), a(1), a(2), a(3)\n50 SAVE a(1)',
+    '10 DIM a(5) : a(1) = 1 : a(2) = 4 : a(3) = 3\n20 FOR a(3) = a(1) TO a(2) : PUNCH a(1), a(2), a(3) : NEXT a(3)\n30 PUNCH a(1), a(2), a(3) : SAVE a(3)',
     '10 PUNCH LEN(NO_NEWLINE$) + 1\n20 a$ = NO_NEWLINE$ : PUNCH 1, 2\n30 PRINT NO_NEWLINE$, 5 : PRINT 6\n40 SAVE 1',   # 20e99f4a
     '10 PUNCH STR_F$(3.14159, 10, 3), STR_F$(2.5, -10, 0) + "|", STR_E$(-12345.678, 12, 4), STR_E$(0, 0, 0), STR_F$(0.5, 0, -1), STR_F$(1e300, 5, 2), STR_F$(1/3, 300, 20)\n20 SAVE LEN(STR_F$(1e300, 5, 2))',
     '10 PUNCH 0x10, 0x1A + 1, 0x.8, 0x1.8p3, 0x, 0xg, 0x1p, 0XfF, 0x1p-2\n20 SAVE 0x10',
@@ -52,6 +60,12 @@ CORPUS = [
 # documented ("standard") values, independent of the model and of the generated tables: the failing-input search
 # of protocol P (e.g. a keyword bound to the wrong token makes model and code agree with each other)
 GOLDEN = [
+    # FOR on an array element runs on the designated cell whatever body / limit / step reference (af19d591)
+    ('10 DIM a(5) : a(1) = 10\n20 FOR a(3) = 1 TO 2 : PUNCH a(3), a(1) : NEXT\n30 PUNCH a(1), a(3)', [1, 10, 2, 10, 10, 3]),
+    ('10 DIM a(5) : a(2) = 0\n20 FOR a(3) = 1 TO a(2) : PUNCH a(3) : NEXT a(3)\n30 PUNCH a(2), a(3)', [0, 1]),
+    ('10 DIM a(5) : a(2) = 5\n20 FOR a(3) = 1 TO 3 STEP a(2) - 4 : PUNCH a(3) : NEXT a(3)\n30 PUNCH a(2), a(3)', [1, 2, 3, 5, 4]),
+    ('10 DIM s$(5), a(5) : s$(1) = "a" : s$(2) = "b" : s$(3) = "c" : a(1) = 1 : a(2) = 2\n20 s$(3) = s$(1) + s$(2) : a(3) = a(1) * 0.5 + a(2)\n30 t$(6) = "x" : t$(4) = t$(6) + t$(6) : t$(5) = t$(4) + t$(6)\n40 READ s$(1), a(1) : PUNCH s$(1), s$(2), s$(3), a(1), a(2), a(3), t$(4), t$(5), t$(6)\n50 DATA s$(3) + s$(2), a(3) + a(2)',
+     ["abb", "b", "ab", 4.5, 2, 2.5, "xx", "xxx", "x"]),
     ('10 PUNCH 7 XOR 2, 6 AND 3, 6 OR 3, NOT 0, 1 < 2, 2 <= 2, 3 <> 3, 2 >= 3, 1 = 1, 5 > 4', [5, 2, 7, -1, 1, 1, 0, 0, 1, 1]),
     ('10 PUNCH (-2)^(-3), (-2)^3, (-2)^(-2), (-3)^(-1), 2^(-1), (-1)^(-5)', [-0.125, -8, 0.25, -1/3, 0.5, -1]),
     ('10 PUNCH STR_F$(3.14159, 8, 2), STR_E$(1234.5, 10, 2), STR_F$(2.5, 0, 0), 0x10 + 0x.8', ["    3.14", "  1.23e+03", "2", 16.5]),
@@ -633,6 +647,6 @@ def replay(ctx, data):
 
 MANIFEST = dict(
     technique="Lean 4 reference evaluator of PBasic (tokenizer incl. strtod decimal/hexadecimal, level-indexed 7-level parser, evaluator, token-driven statement machine, basic_compile/basic_run, numtostr and printf %f/%e in exact arithmetic) with theorems for all expressions/programs/states; translator for the token enumeration, keyword table and operator masks; differential testing against the real engine under four hosts, one forked child per case",
-    text="Theorems (Properties/C17.lean, 41): parse_print_roundtrip / parse_level_roundtrip / parse_args_roundtrip (for every well-formed derivation of the documented expression grammar - 15 binary operators on 6 levels, prefix operators/functions, subscripted variables, GET/GET$ argument lists, MID$/PAD/INSTR/TRIM/STR_F$/STR_E$ forms, redundant parentheses; one derivation constructor per expression constructor - the model's parser returns exactly the tree the derivation denotes: left fold per level, ^ to the right, unary tighter than binary), eval_compositional(+_un), run_fuel_mono + exec_total, hosts_agree, gosub_return_stack + return_without_gosub + popTo_gosub, read_data_order + scanToks_first, for_iterations / for_iterations_down / for_count_closed_form (exact rationals, uninterpreted libm), next_uses_nextContinues, if_then_else + skipToElse_prefix/_matching/_nested/_no_else + else_skips_rest, while_statement + wend_statement + wend_without_while + whileSkip_prefix + while_skips_to_matching_wend + while_skips_nested, PUT/GET keyed store: store_get_put_same / store_get_put_other / find_map_same / find_map_other / get_reads_store / put_writes_store / put_then_get / store_survives_redefinition (a program defined later in the same engine starts with fresh lines, variables, loops, DATA pointer and finds the store unchanged). Obligations over generated data (decide): keywords_documented, functions_documented, rel_mask_is_the_six_relations, loop_masks on Gen/BasicTokens.lean regenerated from PBasic.h/PBasic.cpp each run. Correspondence: 300 (quick) / 30000 (thorough, a quarter of them 80-400 lines with nesting depth up to 6) generated programs, 30% with one malformed-program mutation, plus fixed corpus and documented-value (golden) programs that are independent of model and tables; USER_PUNCH via GetSelectedOutputValue, USER_PRINT text, RATES via calc_kinetic_reaction, CALCULATE_VALUES via -calculate_values; numbers at 1e-12 relative, strings exact, error-vs-value must agree (error class compared and reported), signal/exception/hang = violation; hosts also compared with each other; on 20% of the programs a two-simulation history (USER_PUNCH A, then USER_PUNCH redefined as B in the next simulation of the same engine) is compared row by row with the model's carryOver relation.",
+    text="Theorems (Properties/C17.lean, 45): parse_print_roundtrip / parse_level_roundtrip / parse_args_roundtrip (for every well-formed derivation of the documented expression grammar - 15 binary operators on 6 levels, prefix operators/functions, subscripted variables, GET/GET$ argument lists, MID$/PAD/INSTR/TRIM/STR_F$/STR_E$ forms, redundant parentheses; one derivation constructor per expression constructor - the model's parser returns exactly the tree the derivation denotes: left fold per level, ^ to the right, unary tighter than binary), eval_compositional(+_un), run_fuel_mono + exec_total, hosts_agree, gosub_return_stack + return_without_gosub + popTo_gosub, read_data_order + scanToks_first, for_iterations / for_iterations_down / for_count_closed_form (exact rationals, uninterpreted libm), next_uses_nextContinues + for_cell_ignores_pointer + erase_repoints_for_cell (the loop runs on the cell FOR designated, independent of where findvar left the variable's pointer; af19d591), if_then_else + skipToElse_prefix/_matching/_nested/_no_else + else_skips_rest, while_statement + wend_statement + wend_without_while + whileSkip_prefix + while_skips_to_matching_wend + while_skips_nested, PUT/GET keyed store: store_get_put_same / store_get_put_other / find_map_same / find_map_other / get_reads_store / put_writes_store / put_then_get / store_survives_redefinition, let_stores_in_designated_cell + setNum_designated (LET writes the element its left-hand side designates although findvar re-points the per-variable cell pointer at every reference) (a program defined later in the same engine starts with fresh lines, variables, loops, DATA pointer and finds the store unchanged). Obligations over generated data (decide): keywords_documented, functions_documented, rel_mask_is_the_six_relations, loop_masks on Gen/BasicTokens.lean regenerated from PBasic.h/PBasic.cpp each run. Correspondence: 300 (quick) / 30000 (thorough, a quarter of them 80-400 lines with nesting depth up to 6) generated programs, 30% with one malformed-program mutation, plus fixed corpus and documented-value (golden) programs that are independent of model and tables; USER_PUNCH via GetSelectedOutputValue, USER_PRINT text, RATES via calc_kinetic_reaction, CALCULATE_VALUES via -calculate_values; numbers at 1e-12 relative, strings exact, error-vs-value must agree (error class compared and reported), signal/exception/hang = violation; hosts also compared with each other; on 20% of the programs a two-simulation history (USER_PUNCH A, then USER_PUNCH redefined as B in the next simulation of the same engine) is compared row by row with the model's carryOver relation.",
     note="Trusted: Lean kernel; tools/gen_basic.py (regex extraction); harness/ph_basic.cpp (fork per case, friend access to calc_kinetic_reaction); tools/gens/basic.py; comparison logic in tools/props/c17.py; platform libm shared by both sides (strtod and printf formatting are re-implemented exactly in Model/BasicNum.lean / BasicLex.lean and compared). Partial / not judged (all counted in the evidence): PUT argument lists are parsed while evaluated (statement level) and are outside the derivation type; expressions are parsed, then evaluated, so when a line holds both a syntax error and an earlier run-time error the error class can differ (outcome 'error' agrees; 2 of 1366 error programs in a 6000-program run); chemistry functions, PEEK/POKE (known finding basic-peek-poke), editor commands (LIST/RUN/NEW/LOAD/MERGE/DEL/RENUM), INPUT, GOTOXY are outside the model ('unsupported', never generated); values after a C conversion with undefined behaviour ((long)/(int) of NaN/out of range) or after formatting a NaN (printf shows its sign bit) are compared but a difference is not a violation; programs that exhaust the model's budget (20000 statements) are only checked for 'no crash'; 4M-character strings / 2M-cell arrays (memory exhaustion) are not judged.",
 )
